@@ -603,6 +603,13 @@ func (e *Engine) store(s *State, p *Pointer, val Value) {
 // arrOf returns the byte array a byte slice/string views.
 func (e *Engine) arrOf(s *State, sl *SliceV) *ByteArr {
 	if sl.IsStr {
+		if sl.Alias != nil && sl.Alias.Obj != 0 {
+			// an unsafe.String view: reading it reads the buffer it was made of
+			if o, ok := s.heap[sl.Alias.Obj]; ok {
+				e.checkLive(s, o, "read (through an unsafe string)")
+				e.checkGen(s, o, sl.Alias.Gen, "read (through an unsafe string)")
+			}
+		}
 		return sl.Str
 	}
 	if sl.Base == nil {
@@ -1407,6 +1414,9 @@ func (e *Engine) sliceOp(s *State, f *Frame, x *ssa.Slice) Value {
 		}
 	}
 	r := &SliceV{Base: base, Str: str, IsStr: isStr, Off: c.Add(off, lo), Len: c.Sub(hi, lo), Cap: c.Sub(max, lo)}
+	if sv, ok := xv.(*SliceV); ok {
+		r.Alias = sv.Alias
+	}
 	return r
 }
 
